@@ -29,13 +29,16 @@ def cases(tier, seed):
     b4 = 1 if tier == 'quick' else 2
     for mode in ('S', 'N'):
         for grid in ([1, 2], [2, 1]):
-            for sc in ('S1', 'S2', 'S3', 'S4', 'S5'):
-                out.append({'kind': 'sched', 'scenario': sc, 'grid': grid, 'mode': mode, 'bound': None if sc in ('S1', 'S2') and tier == 'thorough' else (3 if tier == 'thorough' else 2), 'cost': 300})
+            for sc in ('S1', 'S2', 'S3', 'S4', 'S5', 'S7'):
+                b2 = None if sc in ('S1', 'S2') and tier == 'thorough' else (3 if tier == 'thorough' else 2)
+                if sc in ('S3', 'S7'):
+                    b2 = 1 if tier == 'quick' else 2          # long scenarios (> 100 collectives)
+                out.append({'kind': 'sched', 'scenario': sc, 'grid': grid, 'mode': mode, 'bound': b2, 'cost': 300})
         for grid in ([2, 2], [1, 3], [3, 1]):
-            for sc in ('S1', 'S2', 'S3', 'S4', 'S5'):
+            for sc in ('S1', 'S2', 'S3', 'S4', 'S5', 'S7'):
                 out.append({'kind': 'sched', 'scenario': sc, 'grid': grid, 'mode': mode, 'bound': b4, 'cost': 600})
         if tier == 'thorough':
-            for sc in ('S1', 'S2', 'S3', 'S4', 'S5'):
+            for sc in ('S1', 'S2', 'S3', 'S4', 'S5', 'S7'):
                 out.append({'kind': 'sched', 'scenario': sc, 'grid': [2, 3], 'mode': mode, 'bound': 1, 'cost': 900})
         for sc in ('S3p',):
             for size in ((2, 3) if tier == 'quick' else (2, 3, 4, 5)):
@@ -139,18 +142,39 @@ def _scenario(name, case, scratch):
             g, c, t = setupCylindricalGrid(layout='flux_surface', npts=list(NPTS), comm=MPI.COMM_WORLD, allocateSaveMemory=True)
             fill(g)
             out = []
+            size = MPI.COMM_WORLD.Get_size()
             for lname in ('v_parallel', 'poloidal'):
                 g.setLayout(lname)
-                out.append(g.getMin(0))
-                out.append(g.getMax(0))
-                out.append(g.getMin(0, 0, 2))                 # one fixed index, owned by some ranks only
-                out.append(g.getMax(0, [0, 3], [5, 1]))       # two fixed indices
-                out.append(g.getMin(0, 2, 6))
-                out.append(g.getMax(MPI.COMM_WORLD.Get_size() - 1, 3, 0))
+                for draw in sorted(set([0, size - 1])):
+                    out.append(g.getMin(draw))
+                    out.append(g.getMax(draw))
+                    # one fixed index on each axis (owned by some ranks only when that axis is distributed), two fixed indices
+                    for ax, fix in ((0, 2), (3, 1), (2, 6), (1, 0), ([0, 3], [5, 1]), ([2, 0], [0, 5])):
+                        out.append(g.getMin(draw, ax, fix))
+                        out.append(g.getMax(draw, ax, fix))
             blk = g.getBlockFromDict({0: 2, 2: 3}, MPI.COMM_WORLD, 0)
             out.append(None if blk is None else float(np.sum(blk[3])))
-            blk = g.getBlockFromDict({3: range(1, 4)}, MPI.COMM_WORLD, MPI.COMM_WORLD.Get_size() - 1)
+            blk = g.getBlockFromDict({3: range(1, 4)}, MPI.COMM_WORLD, size - 1)
             out.append(None if blk is None else float(np.sum(blk[3])))
+            return out
+        return fn
+    if name == 'S7':
+        # block getter called with a communicator that numbers the processes differently from the grid's own
+        def fn(r):
+            comm = MPI.COMM_WORLD
+            size = comm.Get_size()
+            g, c, t = setupCylindricalGrid(layout='v_parallel', npts=list(NPTS), comm=comm)
+            fill(g)
+            rev = comm.Split(0, size - 1 - r)
+            out = []
+            for cm, nm in ((comm, 'world'), (rev, 'reversed')):
+                for root in sorted(set([0, size - 1])):
+                    for d in ({0: 2, 2: 3}, {3: range(1, 4)}, {1: 5}):
+                        blk = g.getBlockFromDict(d, cm, root)
+                        if cm.Get_rank() == root:
+                            out.append((nm, root, 'root got nothing' if blk is None else round(float(np.sum(blk[3])), 9), None if blk is None else len(blk[2])))
+                        else:
+                            out.append((nm, root, 'non-root returned data' if blk is not None else None))
             return out
         return fn
     if name == 'S3p':
